@@ -72,10 +72,39 @@ Definition cut_by (p : path) (a : attr) (lo hi : nat) (c : cursor) : bool :=
     a block on the wrapped list, inside the wrapped range, that does not start at the range's start
     (the code returns [(attr, blk_rng.start)] where [(attr, rng.start)] is meant).  With the repaired
     code ([fixed = true]) nothing is excluded. *)
-Definition wrap_preb (fixed : bool) (e : edit) (c : cursor) : bool :=
+Definition wrap_preb (fixed : variant) (e : edit) (c : cursor) : bool :=
   match e, c with
   | EWrap p a lo hi _ _ _, CBlock q b bl bh =>
-      fixed || negb (path_eqb q p && attr_eqb b a && (lo <? bl) && (bl <? hi) && (bh <=? hi))
+      wrap_fixed fixed || negb (path_eqb q p && attr_eqb b a && (lo <? bl) && (bl <? hi) && (bh <=? hi))
   | _, _ => true
   end.
-Definition wrap_pre (fixed : bool) (e : edit) (c : cursor) : Prop := wrap_preb fixed e c = true.
+Definition wrap_pre (fixed : variant) (e : edit) (c : cursor) : Prop := wrap_preb fixed e c = true.
+
+(** [move_blk_okb]: a block cursor on the source list is disjoint from the moved range or inside it, and a
+    block cursor on the target list does not have the gap strictly inside *)
+Definition move_blk_okb (e : edit) (c : cursor) : bool :=
+  match e, c with
+  | EMove p a lo hi gp0 s0 _, CBlock q b l h =>
+      let '(gp, s) := move_target p a lo hi gp0 s0 in
+      match gap_path_of gp s with
+      | None => false
+      | Some gpath =>
+          match plast gpath with
+          | None => false
+          | Some (ga, gi) =>
+              (negb (path_eqb q p && attr_eqb b a) || (h <=? lo) || (hi <=? l) || ((lo <=? l) && (h <=? hi))) &&
+              (negb (path_eqb q (pinit gpath) && attr_eqb b ga) || (gi <=? l) || (h <=? gi))
+          end
+      end
+  | _, _ => true
+  end.
+
+
+(** executable side condition of one forwarding step (the Prop [edit_ok] of Chain.v), used by the harness to
+    check the theorems' conclusions on the REAL forwarding results *)
+Definition edit_okb (fixed : variant) (e : edit) (c : cursor) : bool :=
+  match e with
+  | EWrap _ _ _ _ _ _ _ => wrap_preb fixed e c
+  | EMove _ _ lo hi _ _ _ => move_preb e && (lo <? hi) && move_blk_okb e c
+  | _ => true
+  end.
